@@ -1437,6 +1437,22 @@ pub fn corpus_triggered() -> Vec<(&'static str, Prog, Trigger, usize)> {
         let steps = if weak_snapshot { 6 } else { 3 };
         out.push((name, Prog { g0: 4, ncells: 0, nobj: 2, threads: vec![t0, t1] }, Trigger { watch: 0, site: 115, nth: 2, other: 1, steps }, 64));
     }
+    // a child C with two owners: an old, already dropped parent P (destruction pending) and root cell 0.  A reader
+    // pins after P was dropped, loads C from the cell; C is then unlinked from the cell (a NON-final decrement,
+    // 2 -> 1) and P's destruction runs: the stamp left by that decrement is what keeps the cascade from
+    // destructing C under the reader (C02; run at four alignments of the epoch)
+    for (name, g0) in [("c02_unlink_then_cascade_a", 0usize), ("c02_unlink_then_cascade_b", 5), ("c02_unlink_then_cascade_c", 10), ("c02_unlink_then_cascade_d", 15)] {
+        let t0 = (
+            vec![(1u8, 1usize), (1u8, 2usize)],
+            vec![
+                vec![20], vec![6, 1, 5], vec![31, 1, 0, 0, 1], vec![31, 0, 0, 0, 5], vec![21], vec![25, 4], vec![7, 0], vec![25, 2],
+                vec![20], // <- the reader pins and loads here
+                vec![24, 6], vec![32, 0, 0, 0, 6, 6], vec![21], vec![7, 6], vec![25, 3], vec![25, 2],
+            ],
+        );
+        let t1 = (vec![], vec![vec![20], vec![30, 0, 0, 0, 0], vec![15, 0, 1], vec![21], vec![7, 1], vec![25, 4]]);
+        out.push((name, Prog { g0, ncells: 1, nobj: 2, threads: vec![t0, t1] }, Trigger { watch: 0, site: 1, nth: 9, other: 1, steps: 4 }, 64));
+    }
     out
 }
 
